@@ -26,6 +26,7 @@ def run(ctx):
     sweep.nan_placeholder_rule(ctx, "C02.R5")
     sweep.dispatch_rule(ctx, "C02.R4")
     sweep.case_normalisation_rule(ctx, "C02.R7")
+    sweep.case_binding_rule(ctx, "C02.R8")
     sweep.row_pairing_rule(ctx, "C02.R6", title="flat / table output of a cases run: row k pairs the k-th requested setting with its own result, in every configuration")
     prog = ctx.prog
     names = [CR + "." + n for n in ("combo_runner_core", "_unflatten", "nan_like_result", "infer_shape")]
